@@ -10,6 +10,8 @@ pub enum Tier {
     Thorough,
     /// reduced budget used when a property's workload is re-run by the totality monitor (C11)
     Lite,
+    /// tiny budget for the interpreter (Miri) pass of C11
+    Miri,
 }
 
 impl Tier {
@@ -17,6 +19,7 @@ impl Tier {
         match s {
             "thorough" => Tier::Thorough,
             "lite" => Tier::Lite,
+            "miri" => Tier::Miri,
             _ => Tier::Quick,
         }
     }
@@ -25,6 +28,7 @@ impl Tier {
             Tier::Quick => "quick",
             Tier::Thorough => "thorough",
             Tier::Lite => "lite",
+            Tier::Miri => "miri",
         }
     }
 }
@@ -104,6 +108,7 @@ impl Ctx {
             Tier::Quick => n,
             Tier::Thorough => n * 10,
             Tier::Lite => n / 8,
+            Tier::Miri => n / 2000,
         };
         (scaled / self.nworkers as u64).max(1)
     }
